@@ -357,7 +357,7 @@ func (c10) Gen(rng *rand.Rand, tier string) []Case {
 	var out []Case
 	nCons, nWild, nSmall := 900, 250, 300
 	if tier == "thorough" {
-		nCons, nWild, nSmall = 12000, 3000, 4000
+		nCons, nWild, nSmall = 6000, 2000, 3000
 	}
 	// exhaustive permutations of small segmentations at the boundary ISNs
 	S := make([]byte, 12)
@@ -367,11 +367,14 @@ func (c10) Gen(rng *rand.Rand, tier string) []Case {
 	if tier == "thorough" {
 		cutsets = [][]int{{2, 4, 6, 8, 10}, {1, 2, 3, 11}, {3, 6, 9}}
 	}
-	for _, isn := range isns {
+	for ii, isn := range isns {
 		for ci, cuts := range cutsets {
 			for _, lim := range [][2]int{{0, 0}, {2, 0}, {0, 1}} {
 				if tier != "thorough" && lim[0]+lim[1] > 0 && ci > 0 {
 					continue
+				}
+				if tier == "thorough" && lim[0]+lim[1] > 0 && ci == 0 && ii > 0 {
+					continue // the 5040-permutation set with limits only at the wrap ISN
 				}
 				c10GenPermutations(&out, S, isn, cuts, true, lim[0], lim[1], 0, rng)
 			}
